@@ -15,6 +15,7 @@ import (
 	"sync"
 	"time"
 
+	serrors "github.com/jamf/regatta/storage/errors"
 	"github.com/jamf/regatta/storage/kv"
 	"github.com/jamf/regatta/storage/table"
 )
@@ -96,7 +97,8 @@ const (
 var opNames = [...]string{"get", "set", "delete", "exists", "getall"}
 
 type step struct {
-	node uint8 // 1-based index of the client
+	node uint8 // NodeID of the caller
+	cl   uint8 // 1-based index of the client (= node in the exploration; two clients per node in the stress)
 	op   uint8
 	res  uint8
 	seen rec    // get: what was returned; set/delete: record immediately before
@@ -104,22 +106,27 @@ type step struct {
 }
 
 func (s step) String() string {
+	who := fmt.Sprintf("n%d", s.node)
+	if s.cl != s.node {
+		who = fmt.Sprintf("n%d(c%d)", s.node, s.cl)
+	}
 	switch s.op {
 	case opGet:
-		return fmt.Sprintf("n%d:get=%s", s.node, s.seen)
+		return fmt.Sprintf("%s:get=%s", who, s.seen)
 	case opSet, opDel:
 		out := [...]string{"ok", "version-mismatch", "error"}[s.res]
-		return fmt.Sprintf("n%d:%s(v%d) on %s -> %s", s.node, opNames[s.op], s.ver, s.seen, out)
+		return fmt.Sprintf("%s:%s(v%d) on %s -> %s", who, opNames[s.op], s.ver, s.seen, out)
 	}
-	return fmt.Sprintf("n%d:%s", s.node, opNames[s.op])
+	return fmt.Sprintf("%s:%s", who, opNames[s.op])
 }
 
 // sig is the compact interleaving signature of a step (who, what, how it ended).
-func (s step) sig() [3]byte { return [3]byte{'0' + s.node, "gsdxa"[s.op], "omE"[s.res]} }
+func (s step) sig() [3]byte { return [3]byte{'0' + s.cl, "gsdxa"[s.op], "omE"[s.res]} }
 
 type violation struct {
 	Sig  string `json:"signature"`
 	What string `json:"what"`
+	At   int    `json:"-"` // length of the trace when it was found
 }
 
 // stats are plain counters owned by one worker (merged into the evidence at the end).
@@ -174,7 +181,7 @@ func (m *monitor) key(k string) *keyState {
 }
 
 func (m *monitor) violate(sig, format string, a ...any) {
-	m.viol = append(m.viol, violation{Sig: sig, What: fmt.Sprintf(format, a...)})
+	m.viol = append(m.viol, violation{Sig: sig, What: fmt.Sprintf(format, a...), At: len(m.trace)})
 }
 
 func (m *monitor) unsure(format string, a ...any) {
@@ -263,7 +270,7 @@ func (c *client) Get(key string) (kv.Pair, error) {
 	m.winOpen[c.idx] = true
 	m.winCrossed[c.idx] = false
 	if m.keepTrace {
-		m.trace = append(m.trace, step{node: uint8(c.idx), op: opGet, seen: r})
+		m.trace = append(m.trace, step{node: uint8(c.node), cl: uint8(c.idx), op: opGet, seen: r})
 	}
 	return p, err
 }
@@ -289,7 +296,7 @@ func (c *client) Set(key, value string, ver uint64) (kv.Pair, error) {
 	before, bok := m.parse(m.be.Get(key))
 	p, err := m.be.Set(key, value, ver) // linearization point of the write
 	c.closeWindow(true)
-	st := step{node: uint8(c.idx), op: opSet, seen: before, ver: ver}
+	st := step{node: uint8(c.node), cl: uint8(c.idx), op: opSet, seen: before, ver: ver}
 	switch {
 	case err == nil:
 		st.res = resOK
@@ -395,7 +402,7 @@ func (c *client) Delete(key string, ver uint64) error {
 	before, bok := m.parse(m.be.Get(key))
 	err := m.be.Delete(key, ver) // linearization point
 	c.closeWindow(true)
-	st := step{node: uint8(c.idx), op: opDel, seen: before, ver: ver}
+	st := step{node: uint8(c.node), cl: uint8(c.idx), op: opDel, seen: before, ver: ver}
 	switch {
 	case err == nil:
 		st.res = resOK
@@ -471,7 +478,7 @@ func (c *client) endCall(ok bool, err error) string {
 		case errors.Is(err, kv.ErrVersionMismatch):
 			out = "version-mismatch"
 			m.st.add("lease_lost_cas", 1)
-		case strings.Contains(err.Error(), "lease not acquired"):
+		case errors.Is(err, serrors.ErrLeaseNotAcquired):
 			out = "not-acquired"
 			m.st.add("lease_refused", 1)
 			if cs.read != nil && cs.read.present && cs.read.kind == kLive && cs.read.owner != c.node {
